@@ -5,7 +5,7 @@ the virtual loop under the same explicit schedule (set / call_soon-settle / tick
   * each form step by step with its Lean machine (Runner.* / Native.*) on the flat code the program compiles to,
   * the two forms with each other and with the untimed specification `canon` (the property).
 """
-import asyncio, contextvars, itertools, re
+import asyncio, concurrent.futures, contextvars, itertools, re
 from core.wire import atom, line, parse_reply, Atom
 from core import vloop
 from props import c36 as _c36
@@ -24,14 +24,19 @@ TRUSTED = [
 ASSUMPTIONS = [
     "awaited futures complete with a result or an Exception (cancellation of an awaited future is outside this "
     "property's statement; see docs/C37.md)",
-    "program grammar: effect | read contextvar | yield future | yield list/dict of futures | yield moment/None | "
-    "return v / raise gen.Return(v) | return last | raise E | try/except E/finally(effects) | nested native "
-    "coroutine (tie only: compared real-vs-real and against the untimed spec, not against the timed model)",
+    "program grammar: effect | read contextvar | set contextvar | tok = set contextvar | reset(tok) | yield future | "
+    "yield list/dict of futures | yield moment/None | return v / raise gen.Return(v) | return last | raise E | "
+    "try/except E/finally(effects, contextvar statements) | nested native coroutine (tie only: compared "
+    "real-vs-real, not against the timed model; it only READS the context variable: the decorated form runs a "
+    "yielded native coroutine as its own Task, i.e. in its own copy of the context)",
+    "inputs that are concurrent.futures.Future (settled from the harness thread, awaited natively through "
+    "asyncio.wrap_future): tie only, effects and outcome compared real-vs-real, timing not modelled",
     "tracebacks, GC keep-alive of Runner, BadYieldError (no native equivalent) are not compared",
 ]
 RULE = ("programs of depth <=3 (quick) / <=4 (thorough) over <=3 futures x {result, exception} x already-done "
-        "subsets x all completion orders x {batch, step, call_soon} tick placements; non-trivial = the body "
-        "suspends at least once on a pending future/moment and both forms settle")
+        "subsets x all completion orders x {batch, step, call_soon} tick placements; context-variable patterns "
+        "(set / token / read) woven around yields of pending futures, lists and moments in ~30% of the programs; "
+        "non-trivial = the body suspends at least once on a pending future/moment and both forms settle")
 EXHAUSTIVE = {"quick": False, "thorough": False}
 CLAUSES = {
     "same result or exception and same sequence of side effects as the equivalent async def coroutine, "
@@ -40,7 +45,9 @@ CLAUSES = {
     "result future settled once, generator never resumed afterwards": "result_settled_once",
     "decorator fast path = Runner.run's first send(None)": "fast_path_eq",
     "yield moment/None = one loop iteration": "moment_yields_one_iteration",
-    "context variables set by the caller are visible inside": "tie only",
+    "context variables set by the caller are visible inside": "tie only: reads after every kind of resumption "
+        "(pending asyncio / concurrent future, list, moment), values and Tokens set by the body itself across "
+        "suspensions, no leak to the caller; flat-code machines carry the variable (Code.PS.cv/tok)",
     "nested native coroutines": "tie only",
 }
 PARALLEL = False
@@ -73,13 +80,30 @@ def _has(body, kind):
     return False
 
 
+SIMPLE = ("eff", "ctx", "ctxset", "tokset", "tokreset")     # statements without control flow (allowed in finally)
+
+
+def _rand_ctx_stmt(rng, main):
+    """a context-variable statement; inside a nested native coroutine (`main` false) only reads are generated:
+    the decorated form runs a yielded native coroutine as its own Task (own copy of the context), so a set made
+    there is not comparable"""
+    k = rng.random() if main else 0.0
+    if k < 0.40:
+        return ["ctx"]
+    if k < 0.62:
+        return ["ctxset", 78 + rng.randrange(5)]
+    if k < 0.80:
+        return ["tokset", 83 + rng.randrange(5)]
+    return ["tokreset"]
+
+
 def _rand_stmt(rng, nf, depth, in_try, allow_sub, ctr):
     k = rng.random()
     ctr[0] += 1
-    if k < 0.22:
+    if k < 0.18:
         return ["eff", ctr[0]]
-    if k < 0.26:
-        return ["ctx"]
+    if k < 0.28:
+        return _rand_ctx_stmt(rng, allow_sub)     # allow_sub is false exactly inside a nested native coroutine
     if k < 0.50 and nf:
         return ["yf", rng.randrange(nf)]
     if k < 0.60 and nf:
@@ -96,7 +120,11 @@ def _rand_stmt(rng, nf, depth, in_try, allow_sub, ctr):
         body = _rand_body(rng, nf, depth - 1, True, allow_sub, ctr)
         mode = rng.random()
         handler = _rand_body(rng, nf, depth - 1, True, allow_sub, ctr, maxlen=2) if mode < 0.75 else None
-        fin = [["eff", 900 + ctr[0]]] * rng.randint(1, 2) if (mode >= 0.75 or rng.random() < 0.4) else None
+        fin = None
+        if mode >= 0.75 or rng.random() < 0.4:
+            fin = [["eff", 900 + ctr[0]]] * rng.randint(1, 2)
+            if rng.random() < 0.3:
+                fin = fin[:1] + [_rand_ctx_stmt(rng, allow_sub)]
         return ["try", body, handler, fin]
     if allow_sub and depth > 0:
         return ["sub", _rand_body(rng, nf, depth - 1, False, False, ctr, maxlen=3)]
@@ -107,11 +135,56 @@ def _rand_body(rng, nf, depth, in_try, allow_sub, ctr, maxlen=4):
     return [_rand_stmt(rng, nf, depth, in_try, allow_sub, ctr) for _ in range(rng.randint(1, maxlen))]
 
 
+def _susp(rng, nf):
+    """a yield that suspends when its future is still pending (the all-pending start state is always scheduled)
+    or always (moment)"""
+    k = rng.random()
+    if k < 0.6 and nf:
+        return ["yf", rng.randrange(nf)]
+    if k < 0.75 and nf:
+        return ["yl", [rng.randrange(nf) for _ in range(rng.randint(1, 2))], False]
+    return ["ym", rng.choice(["moment", "none", "bare"])]
+
+
+def _ctx_pattern(rng, nf):
+    """context-variable statements placed AROUND suspending yields: what the body wrote before a suspension it must
+    read back after it, whichever way the driver resumes it (done-callback of a pending future, moment callback,
+    synchronously for a done future), and a Token taken before a suspension must still be valid after it"""
+    v = 78 + rng.randrange(5)
+    k = rng.randrange(6)
+    if k == 0:      # set, suspend, read
+        return [["ctxset", v], _susp(rng, nf), ["ctx"]]
+    if k == 1:      # token across a suspension
+        return [["tokset", v], ["ctx"], _susp(rng, nf), ["ctx"], ["tokreset"], ["ctx"]]
+    if k == 2:      # set AFTER a resumption, then a second (differently resumed) suspension, then read
+        return [_susp(rng, nf), ["ctxset", v], _susp(rng, nf), ["ctx"]]
+    if k == 3:      # caller's value after one and two suspensions
+        return [["ctx"], _susp(rng, nf), ["ctx"], _susp(rng, nf), ["ctx"]]
+    if k == 4:      # token taken after a resumption, reset after the next one
+        return [_susp(rng, nf), ["tokset", v], _susp(rng, nf), ["tokreset"], ["ctx"], _susp(rng, nf), ["ctx"]]
+    return [_susp(rng, nf), ["ctxset", v], ["ctx"], _susp(rng, nf), ["ctxset", v + 5], _susp(rng, nf), ["ctx"]]
+
+
+def _weave(rng, body, pat):
+    """insert the statements of `pat`, in order, at random top-level positions of `body`"""
+    pos = sorted(rng.randint(0, len(body)) for _ in pat)
+    out, j = [], 0
+    for i in range(len(body) + 1):
+        while j < len(pat) and pos[j] == i:
+            out.append(pat[j])
+            j += 1
+        if i < len(body):
+            out.append(body[i])
+    return out
+
+
 def _rand_prog(rng, nf, depth, maxlen=5):
     body = _rand_body(rng, nf, depth, False, True, [0], maxlen=maxlen)
-    if rng.random() < 0.25:
-        # the body sets the context variable itself (only as its first statement, so later reads are static)
+    k = rng.random()
+    if k < 0.10:
         body = [["ctxset", 78 + rng.randrange(3)]] + body + ([["ctx"]] if rng.random() < 0.5 else [])
+    elif k < 0.40:
+        body = _weave(rng, body, _ctx_pattern(rng, nf))
     return body
 
 
@@ -135,6 +208,18 @@ FIXED = [
     [["sub", [["yf", 0], ["eff", 1], ["retlast"]]], ["retlast"]],
     [["try", [["sub", [["yf", 0], ["raise", 42]]]], [["eff", 2]], None], ["yf", 1]],
     [["yf", 0], ["ym", "moment"], ["yl", [1, 2], False], ["ym", "none"], ["yf", 2], ["retlast"]],
+]
+# context variable written by the body around suspensions (pending future / moment / list); sampled schedules in the
+# quick tier (the all-pending start state is always among them), all schedules in the thorough tier
+FIXED_CTX = [
+    [["yf", 0], ["ctxset", 80], ["ctx"], ["ym", "moment"], ["ctx"], ["yf", 1], ["ctx"]],
+    [["tokset", 83], ["ctx"], ["yf", 0], ["ctx"], ["tokreset"], ["ctx"]],
+    [["try", [["tokset", 84], ["yf", 0], ["ctx"]], None, [["tokreset"]]], ["ctx"], ["ret", 5, "return"]],
+    [["ym", "none"], ["tokset", 85], ["yl", [0, 1], False], ["tokreset"], ["ctx"], ["yf", 2], ["ctx"]],
+    [["tokreset"], ["tokset", 86], ["ym", "bare"], ["tokreset"], ["tokreset"], ["ctx"]],
+    [["yl", [0], False], ["ctxset", 81], ["yf", 1], ["ctxset", 82], ["ym", "moment"], ["ctx"], ["yf", 2], ["ctx"]],
+    [["ctxset", 80], ["sub", [["ctx"], ["yf", 0], ["ctx"]]], ["ctx"], ["yf", 1], ["ctxset", 81], ["ym", "moment"],
+     ["sub", [["ctx"]]], ["ctx"]],
 ]
 
 
@@ -164,15 +249,28 @@ def _cases_for(prog, nf, rng, full):
 
 
 def gen_cases(rng, tier):
-    nprog = {"quick": 220, "thorough": 1500, "search": 300}[tier]
+    nprog = {"quick": 190, "thorough": 1500, "search": 300}[tier]
     depth = 3 if tier != "thorough" else 4
     if tier != "search":
         for prog in FIXED:
             yield from _cases_for(prog, 3, rng, tier == "thorough" or not _has(prog, "try"))
+        for prog in FIXED_CTX:
+            yield from _cases_for(prog, 3, rng, tier == "thorough")
     for _ in range(nprog):
         nf = rng.randint(1, 3)
         prog = _rand_prog(rng, nf, rng.randint(1, depth))
         yield from _cases_for(prog, nf, rng, tier == "thorough" and rng.random() < 0.3)
+    # some inputs are concurrent.futures.Future (tie only): their done-callback reaches the loop through
+    # add_callback from the SETTLER's context, so the driver alone is responsible for resuming the body in the
+    # coroutine's context (caller-set / body-set variables, tokens)
+    for _ in range(nprog // 5):
+        nf = rng.randint(1, 3)
+        prog = _rand_prog(rng, nf, rng.randint(1, 2), maxlen=4)
+        if rng.random() < 0.6:
+            prog = _weave(rng, prog, _ctx_pattern(rng, nf))
+        cf = sorted(rng.sample(range(nf), rng.randint(1, nf)))
+        for case in _cases_for(prog, nf, rng, False):
+            yield {**case, "cf": cf, "ops": case["ops"] + [["tick"]] * (2 * _yields(prog) + 2)}
     # a few incomplete schedules: some awaited future never completes
     for _ in range(nprog // 4):
         nf = rng.randint(2, 3)
@@ -185,30 +283,46 @@ def gen_cases(rng, tier):
 
 
 # ------------------------------------------------------------------------------------------ compile: flat code
+def _code(case):
+    """flat code of the case's program, or None when the case is tie only (nested native coroutine, or inputs
+    that are concurrent.futures.Future)"""
+    return None if case.get("cf") else compile_prog(case["prog"])
+
+
 def compile_prog(prog):
     """-> flat code for the Lean interpreter, or None when the program uses `sub` (tie only)"""
     if _has(prog, "sub"):
         return None
     code = []
-    ctxval = prog[0][1] if prog and prog[0][0] == "ctxset" else CTXVAL
 
     def emit(i):
         code.append(i)
         return len(code) - 1
 
+    def simple(s):
+        t = s[0]
+        if t == "eff":
+            emit(["eff", s[1]])
+        elif t == "ctx":
+            emit(["cread"])
+        elif t == "ctxset":
+            emit(["cset", s[1]])
+        elif t == "tokset":
+            emit(["tset", s[1]])
+        elif t == "tokreset":
+            emit(["treset"])
+        else:
+            raise AssertionError(s)
+
     def effs(fin):
         for f in fin:
-            emit(["eff", f[1]])
+            simple(f)
 
     def comp(stmts, fins):
         for s in stmts:
             t = s[0]
-            if t == "eff":
-                emit(["eff", s[1]])
-            elif t == "ctx":
-                emit(["eff", ctxval])
-            elif t == "ctxset":
-                pass
+            if t in SIMPLE:
+                simple(s)
             elif t == "yf":
                 emit(["yf", s[1]])
             elif t == "yl":
@@ -269,8 +383,12 @@ def render(prog, native):
                 out.append(pad + "T.append(['k', CV.get()])")
             elif t == "ctxset":
                 out.append(pad + "CV.set(%d)" % s[1])
+            elif t == "tokset":
+                out.append(pad + "tok = CV.set(%d)" % s[1])
+            elif t == "tokreset":
+                out.append(pad + "tok = reset(tok, T)")
             elif t == "yf":
-                out.append(pad + ("last = await F[%d]" if nat else "last = yield F[%d]") % s[1])
+                out.append(pad + ("last = await aw(F[%d])" if nat else "last = yield F[%d]") % s[1])
                 out.append(pad + "T.append(['g', canon(last)])")
             elif t == "yl":
                 if s[2]:
@@ -317,7 +435,38 @@ def render(prog, native):
         return out
     lines = body(prog, 1, native, False)
     head = ["async def main(F, T):"] if native else ["@gen.coroutine", "def main(F, T):"]
-    return "\n\n".join(subs + ["\n".join(head + ["    last = None"] + lines + ["    pass"])])
+    return "\n\n".join(subs + ["\n".join(head + ["    last = tok = None"] + lines + ["    pass"])])
+
+
+NO_TOKEN, BAD_TOKEN = 998, 999      # NO_TOKEN = TornadoModel.C37.Code.noToken
+
+
+def _reset_tok(tok, T):
+    """`CV.reset(tok)` + read; a Token is single-use, so the body forgets it"""
+    if tok is None:
+        T.append(['k', NO_TOKEN])
+        return None
+    try:
+        CV.reset(tok)
+    except ValueError:       # "<Token> was created in a different Context"
+        T.append(['k', BAD_TOKEN])
+        return None
+    T.append(['k', CV.get()])
+    return None
+
+
+def _aw(f):
+    """what the equivalent `async def` awaits for an input future"""
+    return asyncio.wrap_future(f) if isinstance(f, concurrent.futures.Future) else f
+
+
+def _mk(st, cf):
+    fs = _c36._mk(["p" if i in cf else o for i, o in enumerate(st)])
+    for i in cf:
+        fs[i] = concurrent.futures.Future()
+        if st[i] != "p":
+            _c36._settle(fs[i], st[i])
+    return fs
 
 
 def _canon(v):
@@ -335,9 +484,9 @@ def _res_state(f):
 
 def _run_form(case, native, lp):
     from tornado import gen
-    ns = {"gen": gen, "asyncio": asyncio, "E": _c36.E, "CV": CV, "canon": _canon}
+    ns = {"gen": gen, "asyncio": asyncio, "E": _c36.E, "CV": CV, "canon": _canon, "reset": _reset_tok, "aw": _aw}
     exec(compile(render(case["prog"], native), "<c37-%s>" % ("native" if native else "decorated"), "exec"), ns)
-    F = _c36._mk(case["st"])
+    F = _mk(case["st"], case.get("cf") or [])
     T = []
     tok = CV.set(CTXVAL)
     try:
@@ -424,19 +573,19 @@ def _vals(reply):
 
 
 def model_requests(case, impl):
-    code = compile_prog(case["prog"])
+    code = _code(case)
     if code is None:
         return []
     st = [_c36._w(s) for s in case["st"]]
     ops = _c36._wops(case["ops"])
     fuel = len(code) + 8
-    return [line(ID, "run", atom("dec"), _wcode(code), st, ops, fuel),
-            line(ID, "run", atom("nat"), _wcode(code), st, ops, fuel)]
+    return [line(ID, "run", atom("dec"), _wcode(code), st, ops, fuel, CTXVAL),
+            line(ID, "run", atom("nat"), _wcode(code), st, ops, fuel, CTXVAL)]
 
 
 def model_result(case, replies):
     if not replies:
-        return "tie-only (nested native coroutine)"
+        return "tie-only"
     out = {}
     for name, rep in zip(("dec", "nat"), replies):
         tr, effs, fuel_out = _vals(rep)
@@ -445,8 +594,8 @@ def model_result(case, replies):
 
 
 def impl_view(case, impl):
-    if compile_prog(case["prog"]) is None:
-        return "tie-only (nested native coroutine)"
+    if _code(case) is None:
+        return "tie-only"
     return {n: {"trace": impl[n]["trace"], "T": impl[n]["T"], "fuelOut": False} for n in ("dec", "nat")}
 
 
@@ -457,13 +606,13 @@ def _inline(prog):
 
 
 def spec_requests(case, impl):
-    code = compile_prog(case["prog"])
+    code = _code(case)
     if code is None or "dec" not in impl:
         return []
     fin = impl["dec"]["final"]
     if any(s == "p" for s in fin):
         return []
-    return [line(ID, "canon", _wcode(code), [_c36._w(s) for s in fin], len(code) + 8)]
+    return [line(ID, "canon", _wcode(code), [_c36._w(s) for s in fin], len(code) + 8, CTXVAL)]
 
 
 def spec_violation(case, impl, replies):
@@ -506,7 +655,7 @@ def nontrivial(case, impl):
 def stats(case, impl):
     out = []
     p = case["prog"]
-    for kind in ("yf", "yl", "ym", "try", "sub", "ctx", "ctxset", "raise", "ret"):
+    for kind in ("yf", "yl", "ym", "try", "sub", "ctx", "ctxset", "tokset", "tokreset", "raise", "ret"):
         if _has(p, kind):
             out.append("prog:has-" + kind)
     if "dec" in impl:
@@ -514,8 +663,12 @@ def stats(case, impl):
         out.append("outcome:" + (r if isinstance(r, str) else r[0]))
         out.append("fast-path" if impl["dec"]["trace"][0][1] != "p" else "suspends")
         out.append("yields:%d" % min(6, _yields(p)))
+        if impl["dec"]["trace"][0][1] == "p" and (_has(p, "ctxset") or _has(p, "tokset")):
+            out.append("ctx-written-by-body+suspends")
     if any(s != "p" for s in case["st"]):
         out.append("already-done-input")
+    if case.get("cf"):
+        out.append("concurrent-future-input")
     return out
 
 
@@ -523,7 +676,9 @@ def signature(case, impl, why):
     if "escaped the harness" in why:
         return "harness-escape"
     cls = re.sub(r"[^a-zA-Z]+", "-", why.split(":")[0])[:40].strip("-")
-    feat = [k for k in ("yl", "ym", "try", "sub") if _has(case["prog"], k)]
+    feat = [k for k in ("yl", "ym", "try", "sub", "ctxset", "tokset") if _has(case["prog"], k)]
+    if case.get("cf"):
+        feat.append("cf")
     return "%s/%s" % (cls, "+".join(feat) or "plain")
 
 
